@@ -86,6 +86,21 @@ class PW:
 
 
 @dataclass
+class DictV:
+    items: list  # list of (key value, value value)
+
+    def key(self):
+        return ("dict", tuple(sorted(((vkey(k), vkey(v)) for k, v in self.items), key=repr)))
+
+    def get(self, k):
+        kk = vkey(k)
+        for a, b in self.items:
+            if vkey(a) == kk:
+                return b
+        return None
+
+
+@dataclass
 class AppInfo:
     """What an App atom stands for (kept in a side table keyed by the atom)."""
 
@@ -97,8 +112,10 @@ class AppInfo:
 def vkey(v) -> Any:
     if isinstance(v, RF):
         return v.key()
-    if isinstance(v, (Tup, Mat, Rel, PW)):
+    if isinstance(v, (Tup, Mat, Rel, PW, DictV)):
         return v.key()
+    if isinstance(v, dict):
+        return ("struct", tuple(sorted((str(k), vkey(x)) for k, x in v.items())))
     if isinstance(v, Opaque):
         return ("opaque", v.key)
     if isinstance(v, (int, Fraction)):
@@ -279,6 +296,8 @@ class TermEval:
             a = self.single_atom(val)
             if isinstance(a, str):
                 return "{" + a + "}"
+        if isinstance(val, Opaque):
+            return "<" + re.sub(r"[^A-Za-z0-9_.]+", "_", repr(val.key)) + ">"
         raise ExtractionError(f"f-string placeholder `{unparse(node)}` is not a constant")
 
     def _ev_Attribute(self, node, env, fn, depth):
@@ -351,6 +370,18 @@ class TermEval:
 
     def _ev_IfExp(self, node, env, fn, depth):
         raise ExtractionError("conditional expression")
+
+    def _ev_BoolOp(self, node, env, fn, depth):
+        vals = [self.ev(v, env, fn, depth) for v in node.values]
+        return Opaque((type(node.op).__name__.lower(), tuple(vkey(v) for v in vals)))
+
+    def _ev_Dict(self, node, env, fn, depth):
+        items = []
+        for k, v in zip(node.keys, node.values):
+            if k is None:
+                raise ExtractionError("dict unpacking")
+            items.append((self.ev(k, env, fn, depth), self.ev(v, env, fn, depth)))
+        return DictV(items)
 
     # ------------------------------------------------------------------ calls
     def _ev_Call(self, node: ast.Call, env, fn, depth):
@@ -427,6 +458,15 @@ class TermEval:
                 raise ExtractionError(f"inlining depth exceeded at {callee}")
             args, kwargs = self._args(node, env, fn, depth)
             target = self.tree.funcs[callee]
+            is_static = any(unparse(d) == "staticmethod" for d in target.node.decorator_list)
+            if target.cls is not None and target.outer is None and not is_static and isinstance(node.func, ast.Attribute):
+                recv = node.func.value
+                if isinstance(recv, ast.Name) and recv.id in {"self", "cls"} and recv.id in env:
+                    args = [env[recv.id], *args]
+                elif not (isinstance(recv, ast.Name) and recv.id in {"self", "cls"}):
+                    # Class.method(...) on a repo class: classmethod/static style without instance
+                    if any(unparse(d) == "classmethod" for d in target.node.decorator_list):
+                        args = [Opaque(("ref", target.cls.qual)), *args]
             if target.outer is not None:
                 # closure: the nested function sees the enclosing environment
                 inner_env = {**env, **self.bind_params(target, args, kwargs)}
